@@ -300,6 +300,7 @@ func child(seed int64, n int, dir string) {
 	runLoadMatrix(g, scratch, os.Getenv("VERIF_TIER") == "thorough", &cs, sigs)
 	runCorrelated(g, scratch, os.Getenv("VERIF_TIER") == "thorough", &cs, sigs)
 	runSpecial(g, scratch, os.Getenv("VERIF_TIER") == "thorough", &cs, sigs)
+	runFailingLoads(g, scratch, os.Getenv("VERIF_TIER") == "thorough", &cs, sigs)
 	n += cs.Queries // the matrix comes on top of the n generated statements
 	for cs.Queries < n {
 		repo, err := os.MkdirTemp(scratch, "c13repo-")
